@@ -113,7 +113,7 @@ Proof.
   assert (TWO1 : 2 <= length (g_N g1)).
   { destruct (rev_star_frame _ _ (s1_rs _ _ _ _ S)) as (-> & _). rewrite (s0_N _ _ _ _ S). apply (ci_two _ CI). }
   destruct (o_p2 o) eqn:EA.
-  - unfold phase2.
+  - unfold phase2, assign_layers.
     assert (N1 : Nat.eqb (length (g_N g1)) 1 = false) by (apply Nat.eqb_neq; lia). rewrite N1.
     destruct (exec_longest_path_returns g1 C1 R1) as (g2a & E & NN). rewrite E. cbn [bind].
     apply (init_layer_slices_total g2a NN).
@@ -302,7 +302,7 @@ Proof.
   assert (N0 : g_N g0 = g_N c) by (rewrite Eg0; apply ignore_self_loops_N).
   assert (ONE0 : Nat.eqb (length (g_N g0)) 1 = true) by (rewrite N0, ONE; reflexivity).
   unfold phase1. rewrite ONE0. cbn [bind].
-  unfold phase2. rewrite ONE0. cbn [bind].
+  unfold phase2, assign_layers. rewrite ONE0. cbn [bind].
   assert (NN0 : OptVbalance.layers_nonneg g0).
   { intros n Hn. rewrite N0 in Hn. unfold layer_of. rewrite Eg0.
     destruct (node_attrs_fields _ _ (ignore_self_loops_attrs c n)) as (-> & _). apply (NN n Hn). }
